@@ -388,8 +388,8 @@ NOT_RESOLVED = LOCK_LIKE | {"Add", "Load", "Store", "Swap", "CompareAndSwap", "D
 def _canon_expr(e):
     """channel / call expression -> rename-robust token"""
     e = e.strip()
-    if e.endswith("()"):
-        return e[:-2].split(".")[-1] + "()"
+    if e.endswith("()") and e[:-2].split(".")[-1] == "Done":
+        return "Done()"
     return "chan"
 
 
@@ -417,6 +417,9 @@ def flatten_syncops(raw, declared=None):
         cands = by_pkg.get(pkg, {}).get(m, [])
         if not cands:
             return None
+        if len(segs) == 1:
+            plain = [k for k in cands if "." not in k.split("::", 1)[1]]
+            return plain[0] if len(plain) == 1 else None   # a package-level function called by its name
         if segs[0] != "@":
             return None   # a call through a local variable or a package: not resolved
         base = fn
@@ -512,20 +515,43 @@ def syncops_drift(listing, functions):
     fe = flatten_syncops({k: v for k, v in expected.items() if k != "__declared__"}, expected.get("__declared__", {}))
     fc = flatten_syncops(current, decl_now)
     current["__declared__"] = decl_now
+    def base_of(key):
+        while key.endswith(".func"):
+            key = key[:-len(".func")]
+        return key
+
+    def merged(flat, key):
+        """flattened listing of a function together with the closures written inside it (their
+        operations follow the function's own): turning a closure into a method, or a method's
+        body into a closure, moves operations between the two without changing the whole"""
+        parts = [flat.get(key, "")]
+        k = key + ".func"
+        while k in flat:
+            parts.append(flat[k])
+            k += ".func"
+        return " ; ".join(x for x in parts if x)
+
     wanted = []
     for key in functions:
-        if key.endswith("::*"):   # every function of the package that has a listing (now or in the corpus)
+        if key.endswith("::*"):   # every function of the package that has a listing in the corpus
             pre = key[:-1]
-            wanted.extend(sorted(set(k for k in list(expected) + list(fc) if k.startswith(pre))))
+            wanted.extend(sorted(set(base_of(k) for k in expected if k.startswith(pre))))
         else:
-            wanted.append(key)
+            wanted.append(base_of(key))
+    seen = set()
     for key in wanted:
-        if key == "__declared__" or key.endswith(".go"):
+        if key == "__declared__" or key.endswith(".go") or key in seen:
             continue   # goroutine bodies are compared through the function that starts them
-        if key not in expected:
-            if key in fc and fc[key]:
-                diffs.append((key, None, fc[key]))   # a function of a covered package that performs such operations appeared
+        seen.add(key)
+        exp, cur = merged(fe, key), merged(fc, key)
+        if not exp and key not in expected and (key + ".func") not in expected:
             continue
-        if fc.get(key) != fe[key]:
-            diffs.append((key, fe[key], fc.get(key)))
+        if cur != exp:
+            if exp and not cur and key not in fc and (key + ".func") not in fc:
+                # the function is gone under this name: renamed, or a closure turned into a method of a
+                # new type; accepted when a function of the same package has exactly its operations
+                pkg = _pkg_of(key)
+                if any(_pkg_of(k) == pkg and merged(fc, base_of(k)) == exp for k in fc):
+                    continue
+            diffs.append((key, exp, cur))
     return diffs, current
